@@ -49,7 +49,7 @@ class KResult:
         self.src = {}
 
 
-def run_kernel(ctx, unit, sym, kind, bits, length, misalign=0, inplace=False, iv_len=16, facets=('C01', 'C07', 'C13'), safe_data=True, res=None, sabotage=None):
+def run_kernel(ctx, unit, sym, kind, bits, length, misalign=0, inplace=False, iv_len=16, facets=('C01', 'C07', 'C13'), safe_data=True, res=None, sabotage=None, ctr32=None):
     """kind: cbc_dec | ecb_enc | ecb_dec | cntr | cfb_one.  length in bytes (concrete)."""
     res = res or KResult()
     rounds = {128: 10, 192: 12, 256: 14}[bits]
@@ -83,6 +83,10 @@ def run_kernel(ctx, unit, sym, kind, bits, length, misalign=0, inplace=False, iv
     ks = [rd(rks, 16 * i, 16) for i in range(rounds + 1)]
     if sabotage == 'oracle':
         ks = [ks[1]] + ks[1:]      # must-fail twin: a deliberately wrong reference (whitening with round key 1)
+    if ctr32 is not None and iv_len == 16:
+        # case split on the 32-bit block counter (big-endian in IV bytes 12..15): concrete start value, nonce still symbolic
+        for k in range(4):
+            riv.bytes[12 + k] = BitVecVal((ctr32 >> (8 * (3 - k))) & 0xff, 8)
     ivv = rd(riv, 0, iv_len)
     if kind == 'cntr_job':
         # by16 VAES CTR takes the job descriptor: build one with concrete pointers/lengths (src = in - 16 with a 16-byte cipher offset)
@@ -101,9 +105,13 @@ def run_kernel(ctx, unit, sym, kind, bits, length, misalign=0, inplace=False, iv
     for r, a in zip(ARGREGS, args):
         st.r[r] = bv(a, 64)
     init = {i: st.r[i] for i in (3, 5, 12, 13, 14, 15)}
-    name = '%s len=%d%s%s%s' % (sym, length, ' misaligned' if misalign else '', ' in-place' if inplace else '', ' iv%d' % iv_len if kind in ('cntr', 'cntr_job') else '')
+    name = '%s len=%d%s%s%s%s' % (sym, length, ' misaligned' if misalign else '', ' in-place' if inplace else '', ' iv%d' % iv_len if kind in ('cntr', 'cntr_job') else '', ' ctr0=%08x' % ctr32 if ctr32 is not None else '')
     try:
         fin = E.run(st, sym)
+        ext = [x for f_ in fin for x in f_.faults if isinstance(x[1], int) and obj.EXT_BASE <= x[1] < obj.EXT_BASE + 0x10000000]
+        if ext:
+            # data of a unit that was not linked into the harness object: no verdict (neither C01 nor C07) can be read off this run
+            raise Unsupported('the kernel reads global data no linked unit defines (unresolved: %s) at .text+%x' % (', '.join(getattr(ctx, 'unresolved', [])[:4]), ext[0][3] or 0))
     except (Unsupported, BoundExceeded) as e:
         res.obl.append((name, None, 'inconclusive: ' + str(e)[:200], time.time() - t0))
         return res
@@ -213,6 +221,11 @@ for bits in (128, 192, 256):
     KERNELS.append(('avx512_t2/aes_ecb_vaes_avx512.asm', 'aes_ecb_enc_%d_vaes_avx512' % bits, 'ecb_enc', bits))
     KERNELS.append(('avx512_t2/aes_ecb_vaes_avx512.asm', 'aes_ecb_dec_%d_vaes_avx512' % bits, 'ecb_dec', bits))
     KERNELS.append(('avx512_t2/aes_cntr_api_by16_vaes_avx512.asm', 'aes_cntr_%d_submit_vaes_avx512' % bits, 'cntr_job', bits))
+    # VAES on AVX2 (avx2_t2..t4 managers)
+    KERNELS.append(('avx2_t2/aes%d_cntr_vaes_avx2.asm' % bits, 'aes_cntr_%d_vaes_avx2' % bits, 'cntr', bits))
+    KERNELS.append(('avx2_t2/aes%d_ecb_vaes_avx2.asm' % bits, 'aes_ecb_enc_%d_vaes_avx2' % bits, 'ecb_enc', bits))
+    KERNELS.append(('avx2_t2/aes%d_ecb_vaes_avx2.asm' % bits, 'aes_ecb_dec_%d_vaes_avx2' % bits, 'ecb_dec', bits))
+    KERNELS.append(('avx2_t2/aes_cbc_dec_by16_vaes_avx2.asm', 'aes_cbc_dec_%d_vaes_avx2' % bits, 'cbc_dec', bits))
 KERNELS.append(('avx2_t1/aes_cfb_avx.asm', 'aes_cfb_128_one_avx', 'cfb_one', 128))
 KERNELS.append(('avx2_t1/aes_cfb_avx.asm', 'aes_cfb_256_one_avx', 'cfb_one', 256))
 KERNELS.append(('sse_t1/aes_cfb_sse.asm', 'aes_cfb_128_one_sse', 'cfb_one', 128))
@@ -236,10 +249,11 @@ def lengths(kind, quick, sym=''):
 def _task(args):
     unit, sym, kind, bits, length, misalign, inplace, iv_len, facets, safe = args[:10]
     sab = args[10] if len(args) > 10 else None
+    ctr32 = args[11] if len(args) > 11 else None
     from vlib.core import Ctx
     c = Ctx('asmx_worker', 'quick', 0)
     try:
-        r = run_kernel(c, unit, sym, kind, bits, length, misalign, inplace, iv_len, facets, safe, sabotage=sab)
+        r = run_kernel(c, unit, sym, kind, bits, length, misalign, inplace, iv_len, facets, safe, sabotage=sab, ctr32=ctr32)
         return dict(obl=r.obl, viol=r.viol, steps=r.steps, queries=r.queries, solver_s=r.solver_s, src=r.src, args=args, nosafe=not safe, sab=sab)
     except Exception as e:
         import traceback
@@ -264,6 +278,12 @@ def run_family(ctx, prop):
             tasks.append((unit, sym, kind, bits, L, 0, False, 16, facets, True))
             if kind in ('cntr', 'cntr_job'):
                 tasks.append((unit, sym, kind, bits, L, 0, False, 12, facets, True))
+        if kind in ('cntr', 'cntr_job'):
+            # 32-bit block counter near its wrap, longer messages (case split on the counter start; nonce, key, data symbolic):
+            # the by8/by16 loops take their carry branch in different iterations
+            for L in ((300, 513) if quick else (129, 300, 513, 777, 1024, 1040)):
+                for c0 in ((0xfffffff0, 0xffffffe1, 0xffffffff) if quick else (0xfffffff0, 0xffffffe1, 0xffffffff, 0xffffffd5, 0xffffff00, 0xfffffffe, 0x000000ff)):
+                    tasks.append((unit, sym, kind, bits, L, 0, False, 16, facets, True, None, c0))
         if prop in ('C07', 'C01'):
             L = ls[len(ls) // 2]
             tasks.append((unit, sym, kind, bits, L, 3, False, 16, facets, True))     # misaligned buffers
